@@ -18,7 +18,7 @@ import z3
 
 from . import kernel as K
 from . import strings as S
-from .kernel import BOOL, INT, NULLT, REAL, STR, Cell, Ctx, Rel, SortKey
+from .kernel import BOOL, DATE, DT, INT, NULLT, REAL, STR, Cell, Ctx, Rel, SortKey
 
 _colid = itertools.count(1)
 
@@ -221,6 +221,20 @@ class RExpr:
     def str(self):
         return _StrNS(self)
 
+    @property
+    def dt(self):
+        return _DtNS(self)
+
+
+class _DtNS:
+    def __init__(self, e):
+        self.e = e
+
+    def __getattr__(self, name):
+        if name in ("year", "month", "day", "hour", "minute", "second", "day_of_week", "day_of_year"):
+            return lambda: RFn("dt." + name, self.e)
+        raise RefError(f"REF: dt.{name} not modelled")
+
 
 class _StrNS:
     def __init__(self, e):
@@ -254,6 +268,12 @@ class _StrNS:
 
     def slice(self, offset, n):
         return RFn("str.slice", self.e, offset, n)
+
+    def to_date(self):
+        return RFn("str.to_date", self.e)
+
+    def to_datetime(self):
+        return RFn("str.to_datetime", self.e)
 
 
 class RCol(RExpr):
@@ -310,7 +330,9 @@ class _When:
 def wrap(v):
     if isinstance(v, RExpr):
         return v
-    if v is None or isinstance(v, (bool, int, float, str)):
+    import datetime as _dt
+
+    if v is None or isinstance(v, (bool, int, float, str, _dt.date)):
         return RLit(v)
     raise RefError(f"cannot wrap {v!r}")
 
@@ -575,6 +597,12 @@ class RTable:
             return out
         if op.startswith("str."):
             return self._ev_str(op[4:], e, a)
+        if op.startswith("dt."):
+            fld = op[3:]
+            for c in a[0]:
+                if c.ty not in (DATE, DT, NULLT) or (c.ty == DATE and fld in ("hour", "minute", "second")):
+                    raise RefError(f"REF: dt.{fld} on {c.ty}")
+            return [K.temporal_field(c, fld) for c in a[0]]
         raise RefError(f"REF: unknown op {op}")
 
     def _ev_str(self, op, e, a):
@@ -617,6 +645,11 @@ class RTable:
         if op == "replace_all":
             pat, rep = e.args[1].v, e.args[2].v
             return [S.replace_all_literal(c, pat, rep, L) for c in x]
+        if op in ("to_date", "to_datetime"):
+            try:
+                return [S.parse_temporal_const(c, DATE if op == "to_date" else DT) for c in x]
+            except K.Unsupported as ex:
+                raise RefError(f"REF: {ex}") from ex
         if op == "slice":
             off, ln = e.args[1].v, e.args[2].v
             return [Cell(STR, c.null, z3.SubString(c.val, off, ln)) for c in x]
@@ -641,6 +674,16 @@ class RTable:
                 return S.str_to_int(c)
         if tgt == REAL and c.ty in (INT, BOOL):
             return K.as_ty(c, REAL)
+        # documented: Datetime -> Date removes the time component; Date -> Datetime is the
+        # (implicit) conversion to midnight; text forms YYYY-MM-DD / YYYY-MM-DD HH:MM:SS.SSSSSS
+        if tgt == DATE and c.ty == DT:
+            return K.dt_to_date(c)
+        if tgt == DT and c.ty == DATE:
+            return K.date_to_dt(c)
+        if tgt == STR and c.ty == DATE:
+            return S.date_to_str(c)
+        if tgt == STR and c.ty == DT:
+            return S.dt_to_str(c)
         if tgt == STR and c.ty == INT:
             return S.int_to_str(c)
         if tgt == STR and c.ty == REAL:
@@ -1206,6 +1249,8 @@ class RefAPI:
     Float = _Ty(REAL)
     String = _Ty(STR)
     Bool = _Ty(BOOL)
+    Date = _Ty(DATE)
+    Datetime = _Ty(DT)
     is_ref = True
 
     @staticmethod
